@@ -387,13 +387,137 @@ pub fn threaded(seed: u64, n_ports: usize, n_observers: usize, ops_per_port: u64
     out
 }
 
+/// field of a derived-Debug struct rendering: text after `key: ` up to the matching delimiter
+fn dbg_field<'a>(text: &'a str, key: &str) -> Option<&'a str> {
+    let pat = format!("{key}: ");
+    let i = text.find(&pat)? + pat.len();
+    let v = &text[i..];
+    let mut depth = 0i32;
+    for (j, c) in v.char_indices() {
+        match c {
+            '{' | '(' | '[' => depth += 1,
+            '}' | ')' | ']' => {
+                if depth == 0 {
+                    return Some(v[..j].trim());
+                }
+                depth -= 1;
+            }
+            ',' if depth == 0 => return Some(v[..j].trim()),
+            _ => {}
+        }
+    }
+    Some(v.trim())
+}
+
+fn dbg_bytes(v: &str) -> Option<Vec<u8>> {
+    let a = v.find('[')?;
+    let b = v.rfind(']')?;
+    v[a + 1..b].split(',').map(|x| x.trim().parse::<u8>().ok()).collect()
+}
+
+/// (a') deterministic torn-update detection: every state observable between two acquisitions of
+/// the write lock (recorded at each release) must be a single-update state. Returns (states seen,
+/// problems).
+pub fn release_snapshots_scenario(seed: u64, n_announces: u64) -> (u64, u64, Vec<String>) {
+    let own = clock_id(0x50).0;
+    let mut b = Build::new(0x50);
+    b.n_ports = 2;
+    b.path_trace = seed % 2 == 0;
+    b.seed = seed;
+    let Ok(built) = b.build() else { return (0, 0, vec![]) };
+    let mut node = built.node;
+    let src = Src::new(clock_id(0x10).0, 1);
+    let mut problems = vec![];
+    let mut states = 0u64;
+    let mut max_writes_per_call = 0u64;
+    RECORD_WRITE_RELEASES.store(true, Ordering::Relaxed);
+    let _ = take_write_releases();
+    let _ = node.call(1, Call::AnnounceReceiptTimer);
+    let mut check = |what: &str, problems: &mut Vec<String>, states: &mut u64, maxw: &mut u64| {
+        let snaps = take_write_releases();
+        *maxw = (*maxw).max(snaps.len() as u64);
+        for s in snaps {
+            *states += 1;
+            let Some(p) = dbg_field(&s, "parent_ds") else { continue };
+            let Some(gm) = dbg_field(p, "grandmaster_identity").and_then(dbg_bytes) else { continue };
+            let p1: Option<u64> = dbg_field(p, "grandmaster_priority_1").and_then(|x| x.parse().ok());
+            let p2: Option<u64> = dbg_field(p, "grandmaster_priority_2").and_then(|x| x.parse().ok());
+            let class: Option<u64> = dbg_field(p, "clock_class").and_then(|x| x.parse().ok());
+            let var: Option<u64> = dbg_field(p, "offset_scaled_log_variance").and_then(|x| x.parse().ok());
+            let steps: Option<u64> = dbg_field(&s, "current_ds").and_then(|c| dbg_field(c, "steps_removed")).and_then(|x| x.parse().ok());
+            let tp = dbg_field(&s, "time_properties_ds").unwrap_or("");
+            let utc: Option<i64> = dbg_field(tp, "current_utc_offset").and_then(|x| x.strip_prefix("Some(")).and_then(|x| x.strip_suffix(')')).and_then(|x| x.parse().ok());
+            if gm.len() != 8 {
+                continue;
+            }
+            let mut g8 = [0u8; 8];
+            g8.copy_from_slice(&gm);
+            // per data set only (the property does not ask for atomicity across data sets)
+            if g8 == own {
+                if p1 != Some(128) || p2 != Some(128) || class != Some(248) {
+                    problems.push(format!("{what}: parentDS observable at a write-lock release mixes the instance's own identity with foreign fields: priority1={p1:?} priority2={p2:?} class={class:?}"));
+                }
+            } else {
+                let k = u64::from_be_bytes(g8);
+                let ok = p1 == Some(k % 100) && p2 == Some((7 * k + 3) % 251) && class == Some(k % 253) && var == Some(k % 65536);
+                if !ok {
+                    problems.push(format!("{what}: parentDS observable at a write-lock release mixes two updates: grandmaster identity says k={k} but priority1={p1:?} priority2={p2:?} class={class:?} variance={var:?}"));
+                }
+            }
+            if let Some(u) = utc {
+                // timePropertiesDS of a tagged update: flags and time source are functions of the offset
+                let k = u as u64;
+                let tt = dbg_field(tp, "time_traceable") == Some(if k & 4 != 0 { "true" } else { "false" });
+                let ft = dbg_field(tp, "frequency_traceable") == Some(if k & 8 != 0 { "true" } else { "false" });
+                let ps = dbg_field(tp, "ptp_timescale") == Some(if k & 16 != 0 { "true" } else { "false" });
+                let leap = dbg_field(tp, "leap_indicator") == Some(if k & 1 != 0 && k & 2 == 0 { "Leap59" } else if k & 2 != 0 && k & 1 == 0 { "Leap61" } else { "NoLeap" });
+                if u >= 0 && !(tt && ft && ps && leap) {
+                    problems.push(format!("{what}: timePropertiesDS observable at a write-lock release mixes two updates: utc offset says k={k} but the flags say otherwise ({tp})"));
+                }
+            }
+            let _ = steps;
+        }
+    };
+    check("setup", &mut problems, &mut states, &mut max_writes_per_call);
+    let mut seq = 0u16;
+    for k in 1..=n_announces {
+        seq = seq.wrapping_add(1);
+        let m = tagged_announce(&src, seq, k);
+        if node.call(0, Call::GeneralRx(m.encode())).is_err() {
+            break;
+        }
+        check("parent Announce", &mut problems, &mut states, &mut max_writes_per_call);
+        if k == 2 || k % 7 == 0 {
+            if node.bmca().is_err() {
+                break;
+            }
+            check("BMCA", &mut problems, &mut states, &mut max_writes_per_call);
+        }
+        if k % 5 == 0 {
+            let _ = node.call(1, Call::AnnounceTimer);
+            check("announce timer", &mut problems, &mut states, &mut max_writes_per_call);
+        }
+        if k % 50 == 49 {
+            // let the parent expire (own values) and come back
+            for _ in 0..6 {
+                if node.bmca().is_err() {
+                    break;
+                }
+                check("BMCA (expiry)", &mut problems, &mut states, &mut max_writes_per_call);
+            }
+        }
+    }
+    RECORD_WRITE_RELEASES.store(false, Ordering::Relaxed);
+    (states, max_writes_per_call, problems)
+}
+
 fn own_acts(it: statime::port::PortActionIterator<'_>) -> usize {
     crate::node::own(it).len()
 }
 
 pub fn run(rep: &mut Report, tier: &str, seed: u64, shard: (u32, u32), _replay: Option<&str>) {
     rep.rule = "(a) nested-acquisition detection (thread-local depth per lock) is active in every workload of every check; here hostile single-threaded histories in both timestamp regimes are driven over it and every acquisition is counted; (b)+(c) multi-threaded runs: one thread per port of a 2-3-port instance, a BMCA thread doing the daemon's stop-the-world hand-over through channels, 2-4 observer threads; the slave-side port receives parent Announces in which every field of parentDS/timePropertiesDS/currentDS is a function of one counter k, with pauses so that BMCA flips between the parent's and the instance's own values; observers decode k from each field of every snapshot; distinct = distinct k values observed + (state x call) cells".into();
-    rep.require(&["host_call", "lock_acquisitions", "threaded_runs", "snapshots_checked", "distinct_versions_seen", "own_version_snapshots", "bmca_runs_threaded"]);
+    rep.require(&["host_call", "lock_acquisitions", "write_release_states_checked", "threaded_runs", "snapshots_checked", "distinct_versions_seen", "own_version_snapshots", "bmca_runs_threaded"]);
     let thorough = tier == "thorough";
     let miri = tier == "miri";
     let mut rng = StdRng::seed_from_u64(seed ^ 0xc17 ^ ((shard.0 as u64) << 40));
@@ -434,6 +558,16 @@ pub fn run(rep: &mut Report, tier: &str, seed: u64, shard: (u32, u32), _replay: 
         rep.evaluations += 1;
     }
     rep.evn("lock_acquisitions", LOCK_ACQUISITIONS.load(Ordering::Relaxed) - before);
+    // ---------------- (a') states observable between write acquisitions
+    for r in 0..if miri { 1 } else if thorough { 200 } else { 20 } {
+        let (states, maxw, problems) = release_snapshots_scenario(seed.wrapping_add(r), if miri { 20 } else { 400 });
+        rep.evn("write_release_states_checked", states);
+        rep.extra.insert("max_write_acquisitions_per_host_call".into(), json!(maxw));
+        for p in problems.iter().take(3) {
+            rep.violation("C17|torn-update|state-between-write-acquisitions", p, json!({"release_snapshots_seed": seed.wrapping_add(r)}));
+        }
+        rep.evaluations += 1;
+    }
     // ---------------- (b) + (c)
     let runs = if miri { 1 } else if thorough { 60 } else { 6 };
     let ops = if miri { 120 } else if thorough { 400_000 } else { 150_000 };
